@@ -98,7 +98,7 @@ class View(object):
   """Offsets into an Ethernet frame, as OpenFlow 1.0 looks at it."""
   __slots__ = ("ntags", "l3", "ethertype", "ipv4", "ihl", "proto", "mf", "fragoff", "l4", "l4len", "why")
 
-  def __init__(self, f, max_tags=1):
+  def __init__(self, f, max_tags=1, through_snap=False):
     self.ntags = 0
     off = 12
     t = (f[12] << 8) | f[13]
@@ -117,7 +117,11 @@ class View(object):
       o = self.l3
       if t < 0x0600 and bytes(f[o:o + 8]) == b"\xaa\xaa\x03\x00\x00\x00\x08\x00":
         self.why = "ipv4-in-snap"            # 1.0 takes dl_type from the SNAP header: open whether it is rewritten
-      return
+        if through_snap:
+          self.l3 = o + 8
+          self.ethertype = t = 0x0800
+      if t != 0x0800:
+        return
     if self.ntags > max_tags:
       self.why = "ipv4-behind-two-tags"    # OF 1.0 sees dl_type 0x8100 there
       return
@@ -255,7 +259,7 @@ def rewrite(frame, act, udp_zero="keep", tos="dscp"):
 
 def fill_udp_checksum(frame):
   """The frame with the checksum of a complete UDP datagram filled in if the sender left it 0."""
-  v = View(frame, max_tags=99)           # wherever the datagram sits: this is not an OpenFlow field rewrite
+  v = View(frame, max_tags=99, through_snap=True)    # wherever the datagram sits: this is not an OpenFlow field rewrite
   if not v.ipv4 or v.proto != 17 or v.mf or v.fragoff != 0 or v.l4len < 8:
     return frame
   if frame[v.l4 + 6] or frame[v.l4 + 7]:
